@@ -214,6 +214,47 @@ func solveAll(obls []*Obligation, tmo, need int, verbose bool) []*oblResult {
 		par, _ = strconv.Atoi(s)
 	}
 	runJobs(jobs, par)
+	// second pass: an obligation without a definite answer (timeout / unknown / solver error) is tried again, a few at a
+	// time and with six times the budget, before it is reported; a machine under load must not turn into failed obligations
+	var again []job
+	for i, r := range results {
+		if r == nil || r.R == nil {
+			continue
+		}
+		switch r.R.Status {
+		case "timeout", "unknown", "error":
+			i, o, first := i, r.O, r.R
+			scr := r.Scr
+			again = append(again, job{name: o.Name + ".retry", script: scr, need: 1, tmo: tmo * 6, done: func(r2 *SolveResult) {
+				r2.Tried = append(first.Tried, r2.Tried...)
+				r2.Time += first.Time
+				if r2.Status != "unsat" && r2.Status != "sat" && len(o.Splits) > 0 {
+					all := true
+					for si, sg := range o.Splits {
+						sr := solve(fmt.Sprintf("%s.retry.split%d", o.Name, si), o.scriptWith(sg, o.SplitBlk[si]), tmo*6, 1)
+						r2.Time += sr.Time
+						r2.Tried = append(r2.Tried, sr.Tried...)
+						if sr.Status != "unsat" {
+							all = false
+							break
+						}
+					}
+					if all {
+						r2.Status, r2.Solver = "unsat", "split"
+					}
+				}
+				mu.Lock()
+				results[i] = &oblResult{O: o, R: r2, Scr: scr}
+				mu.Unlock()
+				if verbose {
+					fmt.Printf("  retry %-8s %-70s %s %.2fs\n", r2.Status, o.Name, r2.Solver, r2.Time)
+				}
+			}})
+		}
+	}
+	if len(again) > 0 {
+		runJobs(again, 3)
+	}
 	return results
 }
 
